@@ -7,6 +7,16 @@ import os
 VERIF = os.path.dirname(os.path.dirname(os.path.abspath(__file__)))
 
 CLAIMS = {
+    "C08": dict(
+        category="other", design_ref="§7 U09",
+        technique="Kani/CBMC on update_confirmation extracted verbatim (model BTreeMap): per-call contract over arbitrary state with the maximal-watermark invariant assumed before and proved after (inductive step); complete harness for the atomic cell",
+        text="Bounded stand-in, labelled: update_confirmation is checked for ALL watermarks, versions, counts and replication factors but with at most 2 pending versions before the call; the contract is the property's own: never decreases, never exceeds the longest reported-quorum prefix, equals it (maximality is the inductive invariant), whole-map frame, no panic. AtomicWatermark get/advance/can_read: complete.",
+        note="Bounded (pending versions <= 2; thorough adds a 3-delivery any-order history). Not decided: persistence/restart (async tokio fs, crash points of temp-file+rename) — only `a loaded watermark never decreases afterwards` follows from the per-call contract. Model BTreeMap assumed."),
+    "C12": dict(
+        category="other", design_ref="§7 U10",
+        technique="Kani/CBMC on OrderedQueue::{insert,pop,progress_to,next,new} extracted verbatim against the model BTreeMap: per-call contracts with whole-map frames over arbitrary queue states",
+        text="Bounded stand-in, labelled: every method of the reorder buffer is checked against the property's clauses (stale/conflicting writes rejected without changing the buffer, duplicates merged once, only the write at the next expected sequence is handed over, eviction only of the largest key and reported) for ALL keys/next values but at most 3 buffered entries.",
+        note="Bounded (entries <= 3, limit <= 3). Not decided: liveness (`eventually answered`), actor mailbox schedules, the async replicate.rs callers. Known finding: progress_to leaves entries below next."),
     "C23": dict(
         category="proof", design_ref="§4 C23 / U05",
         technique="Kani/CBMC complete harnesses (loop-free, full-domain symbolic ids/hashes/clock/RNG) on id.rs extracted verbatim; Verus contracts on the two bucket helpers; bounded Kani harness for Transaction::new",
